@@ -465,6 +465,11 @@ func (k OrderKind) String() string {
 
 // Order returns a parents-first permutation of evs.
 func Order(r *rand.Rand, evs []*Ev, kind OrderKind) []*Ev {
+	return OrderSpecial(r, evs, kind, 0)
+}
+
+// OrderSpecial is Order with the creator that OrdCreatorLate / OrdCreatorEarly single out chosen by the caller (0 = seeded choice).
+func OrderSpecial(r *rand.Rand, evs []*Ev, kind OrderKind, forced idx.ValidatorID) []*Ev {
 	if kind == OrdGen {
 		return append([]*Ev{}, evs...)
 	}
@@ -485,6 +490,9 @@ func Order(r *rand.Rand, evs []*Ev, kind OrderKind) []*Ev {
 	var special idx.ValidatorID
 	if len(evs) > 0 {
 		special = evs[r.Intn(len(evs))].Creator()
+	}
+	if forced != 0 {
+		special = forced
 	}
 	isRoot := func(i int) bool {
 		e := evs[i]
